@@ -54,6 +54,7 @@ from spyne.util import six
 from spyne.const.xml import DEFAULT_NS
 from spyne.const.http import HTTP_405, HTTP_500
 from spyne.error import RequestNotAllowed
+from spyne.error import ValidationError
 from spyne.model.fault import Fault
 from spyne.model.primitive import Date, Time, DateTime
 from spyne.protocol.xml import XmlDocument, refuse_entity_declarations, \
@@ -315,6 +316,12 @@ class Soap11(XmlDocument):
                 # missing one.
                 if ctx.in_object is None and \
                           ctx.descriptor.body_style is BODY_STYLE_WRAPPED:
+                    if self.validator is self.SOFT_VALIDATION:
+                        # the element of a message is not declared nillable,
+                        # and its mandatory arguments would go unchecked.
+                        raise ValidationError(None,
+                                         "The message element can't be nil.")
+
                     ctx.in_object = [None] * len(body_class._type_info)
 
         self.event_manager.fire_event('after_deserialize', ctx)
